@@ -142,6 +142,7 @@ func genStoreCfg(rt *rapid.T) StoreCfg {
 	switch c.Kind {
 	case "sqlite":
 		c.StreamBatch = rapid.SampledFrom([]int{0, 0, 1, 2, 3, 100}).Draw(rt, "streamBatch")
+		c.InMemory = rapid.IntRange(0, 4).Draw(rt, "inMemory") == 4
 	case "ds":
 		c.ChunkSize = rapid.SampledFrom([]int{0, 0, 0, 64, 256}).Draw(rt, "chunk")
 	}
@@ -159,7 +160,7 @@ func genC10(rt *rapid.T) core.Scenario {
 	for i := 0; i < n; i++ {
 		sc.Ops = append(sc.Ops, genC10Op(rt, kinds))
 	}
-	if mode >= 8 { // scenario B
+	if mode >= 8 && !sc.Store.InMemory { // scenario B (a shared-cache in-memory database locks whole tables: sequential use only)
 		nt := rapid.IntRange(2, 4).Draw(rt, "nTasks")
 		for t := 0; t < nt; t++ {
 			k := rapid.IntRange(1, 5).Draw(rt, "nConc")
